@@ -47,13 +47,3 @@ func helperMain() {
 	os.Exit(rc)
 }
 
-// the value journalctl/dmesg style inputs store: a flat map; here stream name -> offset of the first job
-func genericValue(table []filein.VerifC07Job) map[string]int64 {
-	m := map[string]int64{}
-	for _, j := range table {
-		for _, s := range j.Streams {
-			m[fmt.Sprintf("%d/%s", j.SourceID, s.Name)] = s.Offset
-		}
-	}
-	return m
-}
